@@ -24,6 +24,12 @@ def add(ctx, res, tag):
                     if 'exc' in r:
                         continue
                     k += 1
+                    if 'reference' in r and r['reference'] != r['value']:
+                        extra.append({'signature': 'oracle:stale-entry-served-across-pipelines',
+                                      'case': {'kind': f['kind'], 'spec': f['spec'], 'ids': f['ids'], 'variant': v['variant'], 'field': r['field'], 'args': r['args']},
+                                      'observed': r['value'], 'expected': r['reference'],
+                                      'what': f'{tag}: {f["kind"]} family {fi}: after the variants before it had filled the shared store, "{v["variant"]}" returns '
+                                              f'{json.dumps(r["value"])[:120]} for {r["field"]}{tuple(r["args"])}; without caches it returns {json.dumps(r["reference"])[:120]}'})
                     d = r['digest']
                     if d in seen and seen[d][0] != r['value']:
                         extra.append({'signature': 'oracle:node-hash-collision-across-pipelines',
